@@ -117,6 +117,11 @@ func (m *runtimeContextManager) PushContext(ctx RuntimeContextDef) {
 	m.hardLimits = m.hardLimits.Remove(m.usedResources).Merge(ctx.HardLimits)
 	m.softLimits = m.hardLimits.Merge(m.softLimits).Merge(ctx.SoftLimits)
 	m.usedResources = RuntimeResources{}
+	// The CPU counter restarts at 0, so must the CPU threshold at which the
+	// clock is next looked at: with the parent's threshold the new context's
+	// time limit would not be checked until it has used as much CPU as the
+	// parent had.
+	m.nextCpuThreshold = 0
 	m.requiredFlags |= ctx.RequiredFlags
 
 	if ctx.HardLimits.Cpu > 0 {
